@@ -64,6 +64,14 @@ def lex_tab(text, nstrings):
     return {"blocks": out}
 
 
+def open_strings_again(R, t, tp, why):
+    """the open strings asked again, judged against the tuning as it was projected before (a tuning is not retuned by use)"""
+    for s_ in range(tp["strings"]):
+        r = call("get_Note", {"s": s_, "f": 0, "maxfret": 24, "asked": why}, lambda: integer(int(t.get_Note(s_, 0, 24))))
+        r["tuning"] = tp
+        R.append(r)
+
+
 def run_case(c):
     R = []
     k = c["kind"]
@@ -90,6 +98,21 @@ def run_case(c):
                     r = call("get_Note", {"s": s, "f": f, "maxfret": mf}, lambda: integer(int(t.get_Note(s, f, mf))))
                     r["tuning"] = tp
                     R.append(r)
+        # the caller changes the notes it was handed (they are the caller's), singly and as the container of a fingering
+        def edit():
+            for s_ in range(tp["strings"]):
+                for f_ in (0, 3):
+                    n = t.get_Note(s_, f_, 24)
+                    n.octave_up(); n.augment()
+            nc = t.frets_to_NoteContainer([0] * tp["strings"])
+            nc.transpose("3")
+            for n in nc:
+                n.octave_down()
+        try:
+            edit()
+        except Exception:
+            pass
+        open_strings_again(R, t, tp, "again after the caller changed the notes it was handed")
     elif k == "lookup":
         for instr, descr, ns, ncs in c["queries"]:
             def f():
@@ -133,6 +156,7 @@ def run_case(c):
         r["names"] = r["out"]["names"] if r["ok"] else []
         r["out"] = r["out"]["fgs"] if r["ok"] else []
         R.append(r)
+        open_strings_again(R, t, tp, "again after a chord fingering was handed out as a container")
     elif k == "prog":
         p = c["prog"]
         try:
